@@ -175,6 +175,9 @@ def as_collection(value: Any) -> Optional[List[Any]]:
     """
     if isinstance(value, (str, bytes)) or hasattr(value, "in_"):
         return None
+    if hasattr(value, "__next__"):
+        # a one-shot iterator is used up by whoever looks first: its elements are not a property of the query
+        raise UnsupportedOperatorError("A one-shot iterator cannot be the container of in_; pass a list.")
     try:
         return list(value)
     except TypeError:
